@@ -11,9 +11,9 @@ EXHAUSTIVE_GRID = True
 RULE = ("Grid, enumerated exhaustively on every run: command {put, list, restore, empty, rm} x "
         "state of $topdir/.Trash {sticky dir (positive control), non-sticky dir, symlink->sticky "
         "dir, symlink->non-sticky dir, regular file, absent} x second volume state, with a "
-        "populated .Trash/$uid (where one can exist) and a populated .Trash-$uid as second "
+        "populated (or absent, or half made) .Trash/$uid and a populated .Trash-$uid as second "
         "control; plus a Hypothesis campaign with generated names, uid, states per volume. "
-        "Oracle: for insecure states the snapshot of the directory behind .Trash/$uid is "
+        "Oracle: for insecure states the snapshot of the directory behind .Trash (the $uid directory included) is "
         "identical before/after every command (restore is answered with every offered index), "
         "list/restore print nothing stored there, put lands in .Trash-$uid, trash-list names "
         "the skipped directory on stderr; for the sticky control all five commands do use it. "
@@ -29,13 +29,18 @@ def examples(tier):
     return 2500 if tier == "quick" else 60000
 
 
-def cell(cmd, state, state2, uid=1000, name="secret", name2="other"):
-    return {"cmd": cmd, "state": state, "state2": state2, "uid": uid, "name": name, "name2": name2}
+def cell(cmd, state, state2, uid=1000, name="secret", name2="other", ustate="full"):
+    return {"cmd": cmd, "state": state, "state2": state2, "uid": uid, "name": name, "name2": name2,
+            "ustate": ustate}
 
 
 def grid(tier):
-    return [cell(c, s, s2) for c in CMDS for s in gen.TOP_STATES
-            for s2 in ("none", "sticky", "nonsticky", "link_sticky")]
+    g = [cell(c, s, s2) for c in CMDS for s in gen.TOP_STATES
+         for s2 in ("none", "sticky", "nonsticky", "link_sticky")]
+    # .Trash/$uid absent or half made: nothing may be CREATED behind an insecure .Trash either
+    g += [cell(c, s, s2, ustate=u) for c in CMDS for s in gen.TOP_STATES
+          for s2 in ("none", "nonsticky") for u in ("absent", "partial")]
+    return g
 
 
 @st.composite
@@ -43,7 +48,8 @@ def strategy_(draw, tier):
     return cell(draw(st.sampled_from(CMDS)), draw(st.sampled_from(gen.TOP_STATES)),
                 draw(st.sampled_from(["none"] + gen.TOP_STATES)),
                 draw(st.sampled_from([1000, 0, 501, 65534])),
-                draw(gen.names(long_ok=False)), draw(gen.names(simple=True)))
+                draw(gen.names(long_ok=False)), draw(gen.names(simple=True)),
+                draw(st.sampled_from(["full", "full", "absent", "partial"])))
 
 
 def strategy(tier):
@@ -59,13 +65,25 @@ def uid_dir(vol, state, uid):
     return None
 
 
-def populate(tw, vol, state, uid, name):
+def top_dir(vol, state):
+    """real directory that $vol/.Trash denotes (None if there is none)"""
+    if state in ("sticky", "nonsticky", "setgid", "setuid"):
+        return vol + "/.Trash"
+    if state.startswith("link"):
+        return vol + "/.real-trash"
+    return None
+
+
+def populate(tw, vol, state, uid, name, ustate="full"):
     """write .Trash in `state` on vol, a pair in .Trash/$uid (entry A) and one in .Trash-$uid (B)"""
     tw.nodes += gen.topdir_nodes(vol, uid, state, "absent")
     tw.nodes.append({"p": vol + "/w", "t": "d"})
     a = None
     ud = uid_dir(vol, state, uid)
-    if ud is not None:
+    if ud is not None and ustate == "partial":
+        tw.nodes.append({"p": ud, "t": "d", "m": 0o700})
+        tw.nodes.append({"p": ud + "/info", "t": "d", "m": 0o700})
+    elif ud is not None and ustate == "full":
         from ..oracle import make_info
         from ..sandbox import fsenc
         tw.nodes.append({"p": ud, "t": "d", "m": 0o700})
@@ -83,10 +101,11 @@ def run_case(case):
     uid = case["uid"]
     vols = ["/vol"] + (["/vol2"] if case["state2"] != "none" else [])
     tw = gen.TrashWorld(vols, "/home/u", uid)
-    a1, b1 = populate(tw, "/vol", case["state"], uid, case["name"])
+    us = case.get("ustate", "full")
+    a1, b1 = populate(tw, "/vol", case["state"], uid, case["name"], us)
     a2 = b2 = None
     if case["state2"] != "none":
-        a2, b2 = populate(tw, "/vol2", case["state2"], uid, case["name2"])
+        a2, b2 = populate(tw, "/vol2", case["state2"], uid, case["name2"], us)
     tw.nodes.append({"p": "/vol/w/new-file", "t": "f", "c": "to be trashed"})
     if case["state2"] != "none":
         tw.nodes.append({"p": "/vol2/w/pre-file", "t": "f", "c": "trashed first"})
@@ -122,7 +141,7 @@ def run_case(case):
     after = sandbox.snapshot()
     res = results[0]
     out.classes += ["cmd:" + cmd, "state:" + case["state"], "state2:" + case["state2"],
-                    "exit:%d" % res.code]
+                    "exit:%d" % res.code, "uid_dir:" + us]
     check_untouched(out, case, before, after, tags, cmd)
     for (vol, state, a, b) in (("/vol", case["state"], a1, b1), ("/vol2", case["state2"], a2, b2)):
         if state == "none" or b is None:
@@ -163,8 +182,8 @@ def run_case(case):
             if len(got) != 1 or not got[0].startswith(want + "/files/"):
                 out.fail("put_wrong_dir", "put used %s, expected %s (exit %d, stderr %r)" % (
                     got, want, res.code, res.err[-200:]), **t)
-    if insecure and a1 is not None:
-        out.key = [cmd, case["state"], case["state2"], uid, gen.name_class(case["name"])]
+    if insecure and (a1 is not None or us != "full"):
+        out.key = [cmd, case["state"], case["state2"], uid, gen.name_class(case["name"]), us]
         out.sample = dict(case, exit=res.code)
     return out
 
@@ -173,7 +192,7 @@ def check_untouched(out, case, before, after, tags, what):
     uid = case["uid"]
     for vol, state in (("/vol", case["state"]), ("/vol2", case["state2"])):
         if state in INSECURE:
-            d = uid_dir(vol, state, uid)
+            d = top_dir(vol, state)     # everything behind .Trash, the $uid directory included
             if subtree(after, d) != subtree(before, d):
                 diff = sorted(set(subtree(before, d).items()) ^ set(subtree(after, d).items()))
                 out.fail("insecure_dir_modified", "%s modified %s (behind insecure %s/.Trash): %s" % (
